@@ -24,7 +24,7 @@ Definition qsub (a b : Q) : Q := Qred (Qminus a b).
 Definition qmul (a b : Q) : Q := Qred (Qmult a b).
 Definition qneg (a : Q) : Q := Qred (Qopp a).
 (* if (x == 0) CRAB_ERROR("division by zero") *)
-Definition qdiv (a b : Q) : option Q :=
+Definition qdivide (a b : Q) : option Q :=
   if Qnum b =? 0 then None else Some (Qred (Qdiv a b)).
 Definition qinc (a : Q) : Q := Qred (Qplus a (inject_Z 1)).
 Definition qdec (a : Q) : Q := Qred (Qminus a (inject_Z 1)).
